@@ -120,6 +120,7 @@ func (s c17Spec) ops(st *c17State) (out []opx) {
 		txnOp(w, []model.Act{{Op: "insert", W: []model.Write{n1}}}, false),
 		txnOp(w, []model.Act{{Op: "insert", W: []model.Write{n1, ttl(1)}}}, false),
 		txnOp(w, []model.Act{{Op: "insert", W: []model.Write{n1, ttl(3)}}}, false),
+		txnOp(w, []model.Act{{Op: "insert", W: []model.Write{n1, ttl(1), {Extend: true, TTL: 2 * c17U}}}}, false),
 	)
 	rows := firstRows(w, 2)
 	for i, r := range rows {
@@ -130,6 +131,11 @@ func (s c17Spec) ops(st *c17State) (out []opx) {
 		}
 		if v, ok := w.M.Live[r].V[model.ExpireCol]; ok && v.N != 0 {
 			out = append(out, txnOp(w, []model.Act{{Op: "put", Off: r, W: []model.Write{{Extend: true, TTL: 2 * c17U}}}}, false))
+			if i == 0 {
+				// several deadline changes of one row in one transaction
+				out = append(out, txnOp(w, []model.Act{{Op: "put", Off: r, W: []model.Write{{Extend: true, TTL: 1 * c17U}, {Extend: true, TTL: 2 * c17U}}}}, false))
+				out = append(out, txnOp(w, []model.Act{{Op: "put", Off: r, W: []model.Write{ttl(1), {Extend: true, TTL: 3 * c17U}}}}, false))
+			}
 		}
 	}
 	out = append(out,
